@@ -296,6 +296,8 @@ def holds_iff_nonempty(cs, aliases):
 
             class R(ast.NodeTransformer):
                 def visit(self, n):
+                    if isinstance(n, ast.NamedExpr):
+                        n = n.value  # the test reads the value that is being named
                     if isinstance(n, ast.expr) and A.norm(n) in aliases:
                         return ast.Name(id="CA", ctx=ast.Load())
                     return ast.NodeTransformer.visit(self, n)
@@ -799,9 +801,15 @@ def check(ck):
         okw = len(cl) == 1 and A.kwarg(cl[0], "context") is not None
         if okw:
             e = strip_cast(f.expand(A.kwarg(cl[0], "context"), f.nodes(cl[0])[0]))
+            if isinstance(e, ast.Call) and A.norm(e.func) == "InvocationContext" and A.norm(A.arg_or_kw(e, 1, "local")) == "self.context.local":
+                # update_recursive written out: InvocationContext(self.context.recursive.update(k, v), self.context.local)
+                r0 = A.arg_or_kw(e, 0, "recursive")
+                if isinstance(r0, ast.Call) and A.call_attr(r0) == "update" and A.norm(A.call_recv(r0)) == "self.context.recursive":
+                    e = ast.Call(func=ast.Attribute(value=ast.parse("self.context", mode="eval").body, attr="update_recursive", ctx=ast.Load()),
+                                 args=list(r0.args), keywords=list(r0.keywords))
             okw = isinstance(e, ast.Call) and A.call_attr(e) == "update_recursive" and A.norm(A.call_recv(e)) == "self.context" \
                 and A.const_str(A.arg_or_kw(e, 0, "key")) == field and A.norm(strip_cast(A.arg_or_kw(e, 1, "value"))) in f.fi.params[1:] \
-                and len([c for c in f.calls("update_recursive") if A.const_str(A.arg_or_kw(c, 0, "key")) == field]) == 1
+                and len([c for c in f.calls("update_recursive") if A.const_str(A.arg_or_kw(c, 0, "key")) == field]) <= 1
             # and the clone is what the modifier returns
             okw = okw and any(r.value is not None and "call:clone_with" in f.deps(r.value) for r in f.returns() if f.nodes(r))
         ck.ob(R3, f.key(None, "clone-with-updated-context"), okw, "%s clones with the updated context" % name if okw else
